@@ -46,9 +46,19 @@ int prop_dispatch(Run& run) {
         run.cur_case = cs;
         Rng rng(run.seed, (uint64_t)cs);
         Registry base;
-        gen_graph(rng, prof, base);
+        GenProfile pcase = prof;
+        if ((flags & (MON_SELECT | MON_NEXT | MON_WALK)) && rng.chance(1, thorough ? 25 : 60)) {
+            // beyond one machine word: > 64 classes, > 64 slots in a v-table, > 64 definitions of a method
+            pcase.big = true;
+            pcase.min_classes = 66;
+            pcase.max_classes = MAXC - 4;
+            pcase.max_methods = 44;
+            pcase.max_defs = 6;
+            run.count("big-registries");
+        }
+        gen_graph(rng, pcase, base);
         Oracle o(base);
-        gen_methods(rng, prof, base, o);
+        gen_methods(rng, pcase, base, o);
         int nworlds = run.prop == "C17" ? 1 : 2;
         for (int k = 0; k < nworlds; ++k) {
             IWorld* w = k == 0 ? ws[(size_t)((cs + run.seed) % ws.size())] : ws[rng.below(ws.size())];
@@ -92,9 +102,24 @@ int prop_dispatch(Run& run) {
             run.count(std::string("ids.") + r.idflavour);
             if (has_mi(r))
                 run.count("graphs.with-multiple-inheritance");
+            if (pcase.big) {
+                size_t maxslot = 0, maxdefs = 0;
+                for (size_t m = 0; m < r.methods.size(); ++m) {
+                    MethodView mv = w->method(r, (int)m);
+                    for (size_t i = 0; i < r.methods[m].vp.size(); ++i)
+                        maxslot = std::max(maxslot, mv.slots_strides[i]);
+                    maxdefs = std::max(maxdefs, r.methods[m].defs.size());
+                }
+                if (maxslot >= 64)
+                    run.count("big.registries-with-a-slot-number>=64");
+                if (maxdefs > 64)
+                    run.count("big.registries-with-a-method-of>64-definitions");
+                if (r.n > 64)
+                    run.count("big.registries-with>64-classes");
+            }
             bool stop = false;
             if (flags & (MON_SELECT | MON_ERRORS))
-                stop = monitor_calls(c, u, flags, max_tuples);
+                stop = monitor_calls(c, u, flags, pcase.big ? 256 : max_tuples);
             if (!stop && (flags & MON_NEXT))
                 stop = monitor_next(c, run.prop.c_str());
             if (!stop && (flags & MON_WALK))
